@@ -101,6 +101,17 @@ CLAIMED = {
         design_ref="DESIGN.md 4 C15, 9",
         technique="TLA+ executable reference of the CGI mapping; TLC-enumerated targets replayed into the real code; TLC judges observed environs",
         note="Transcribed-function use of the technique (DESIGN.md 6): class-complete enumeration and an independent reference, no interleavings. " ),
+    "C18": dict(
+        text="TLC checks specs/Recycle.tla (accept / count / leave-the-loop rule of the sync, gthread and async families, all "
+             "interleavings of four client connections, max_requests in {0..3}) against StopsAcceptingAfterLimit, "
+             "NoClientVisibleDrop, LimitAndInflightAnswered, ExitsAndReplaced, NeverRecycledWhenUnset, EverybodyServed. "
+             "Bound to the code in-process (the real counting rule in handle_request of each family with seeded jitter; the "
+             "real SyncWorker.run loop on a scripted listener) and by real processes (python -m gunicorn --max-requests M "
+             "--max-requests-jitter J for sync / gthread / gevent / eventlet under sequential and concurrent clients, every "
+             "response naming the serving pid, process table read after a quiescent tail); TLC judges every run against "
+             "specs/RecycleTrace.tla.",
+        design_ref="DESIGN.md 4 C18, 9",
+        technique="TLA+ model checking of the recycling rule + TLC trace validation of in-process worker loops and real gunicorn processes"),
 }
 
 NOT_YET = {
